@@ -37,7 +37,7 @@ def run(ctx):
     scripts = cc.tlc_scripts(e, "C04_gen.cfg", 1500 if th else 260, "tlc")
     base = []
     pairs4 = ["tworeg", "samereg", "reg2dir", "dir2reg", "samerepo"]
-    for sh in e.cat:
+    for sh in e.shapes:
         for pr in pairs4:
             osets = e.option_sets(sh)
             for opts in (osets if th else [osets[0]] + rng.sample(osets[1:], min(2, len(osets) - 1))):
@@ -54,12 +54,29 @@ def run(ctx):
             lambda s: (s["shape"], (s.get("death") or {}).get("class")),
             lambda s: tuple(f["kind"] for f in s.get("faults") or [])]
     sw = cc.cover_sample(rng, sw, 12000 if th else 900, keyf)
+    # faults on the requests of objects that several parts of the image share (a waiter depends on another
+    # task's copy there), under several random schedules each
+    shared = {"idx2": ["L"], "nested": ["L1"], "docker": ["L"], "dup": ["L1"], "art": ["E"], "artidx": ["L1", "E"]}
+    sh_sw = []
+    for sc, tr in bres:
+        if sc["shape"] not in shared or sc["pair"] not in ("tworeg", "reg2dir", "samereg", "dir2reg"):
+            continue
+        for p in e.positions(tr):
+            if p["n"] in shared[sc["shape"]] and p["class"] in ("blob_get", "upload_post", "upload_put", "mount_post"):
+                for k in ("404", "503"):
+                    for _ in range(6 if th else 2):
+                        s2 = dict(sc)
+                        e.n += 1
+                        s2.update(id="shared-%d" % e.n, origin="shared", faults=[dict(p, kind=k)], mode="random",
+                                  seed=rng.randrange(1 << 30))
+                        sh_sw.append(s2)
+    sh_sw = cc.cover_sample(rng, sh_sw, 3000 if th else 320, [lambda s: (s["shape"], s["pair"], s["faults"][0]["class"])])
     # the scenario that shows findings/C04-1 reliably (a class that has produced a violation stays in every tier)
     demo = e.scn("big", "reg2dir", "c04-1-demo", mode="script", cancel_cb={"n": "LB", "occ": 2},
                  script=[{"op": "rel", "host": "src", "class": "manifest_get", "n": "S"},
                          {"op": "rel", "host": "src", "class": "blob_get", "n": "L2"}, {"op": "settle"},
                          {"op": "rel", "host": "src", "class": "blob_get", "n": "LB"}, {"op": "settle"}])
-    scns = scripts + sw
+    scns = scripts + sw + sh_sw
     scns, dropped = cc.limit_defect_prone(rng, scns, 2500 if th else 300)
     res = bres + e.run(scns + [demo], "faults")
 
